@@ -18,7 +18,8 @@ EncPair(n)  == BE16(n.pid) \o BE16(n.blp)
 EncNACK(v)  == FbHead(205, 1, SizeNACK(v), v) \o FlatFixed(EncPair, v.nacks, 4)
 DecNACK(b)  ==
   IF ~IsFb(b, 205, 1) THEN NA
-  ELSE IF Len(b) < 16 THEN Rej                  \* no FCI entry
+  ELSE IF Len(b) < 12 THEN Rej                  \* shorter than the two SSRCs
+  ELSE IF Len(b) < 16 THEN NA                   \* no FCI entry: invalid by RFC 4585, but no property demands the error
   ELSE Ok([ k |-> "NACK", sender |-> Sl(b, 4, 4), media |-> Sl(b, 8, 4),
             nacks |-> [i \in 1..((Len(b) - 12) \div 4) |-> [pid |-> U16At(b, 8 + 4 * i), blp |-> U16At(b, 10 + 4 * i)]] ])
 DestNACK(v) == << v.media >>
@@ -72,8 +73,8 @@ EncFirEntry(e) == e.ssrc \o << e.seq, 0, 0, 0 >>
 EncFIR(v)   == FbHead(206, 4, SizeFIR(v), v) \o FlatFixed(EncFirEntry, v.fir, 8)
 DecFIR(b)   ==
   IF ~IsFb(b, 206, 4) THEN NA
-  ELSE IF Len(b) < 20 THEN Rej                  \* no complete FCI entry
-  ELSE IF (Len(b) - 12) % 8 # 0 THEN NA
+  ELSE IF Len(b) < 12 THEN Rej                  \* shorter than the two SSRCs
+  ELSE IF Len(b) < 20 \/ (Len(b) - 12) % 8 # 0 THEN NA
   ELSE Ok([ k |-> "FIR", sender |-> Sl(b, 4, 4), media |-> Sl(b, 8, 4),
             fir |-> [i \in 1..((Len(b) - 12) \div 8) |-> [ssrc |-> Sl(b, 4 + 8 * i, 4), seq |-> At(b, 8 + 8 * i)]] ])
 DestFIR(v)  == [i \in 1..Len(v.fir) |-> v.fir[i].ssrc]
